@@ -23,6 +23,7 @@ import (
 	"regexp"
 	"runtime/debug"
 	"sort"
+	"strconv"
 	"strings"
 	"sync"
 	"time"
@@ -98,8 +99,9 @@ func realConfig(op *wire.Rec) *model.SimConfig {
 		if i < len(relics) && relics[i] != "" && relics[i] != "-" {
 			for _, rk := range strings.Split(relics[i], "/") {
 				n := 2
-				if strings.HasSuffix(rk, "*4") {
-					n, rk = 4, strings.TrimSuffix(rk, "*4")
+				if i := strings.LastIndex(rk, "*"); i >= 0 {
+					n, _ = strconv.Atoi(rk[i+1:])
+					rk = rk[:i]
 				}
 				for j := 0; j < n; j++ {
 					ch.Relics = append(ch.Relics, &model.Relic{Key: rk, MainStat: &model.RelicStat{Stat: model.Property_ATK_PERCENT, Amount: 0.1}})
@@ -473,11 +475,13 @@ func realSpecGen(r *rand.Rand, chars, lcs, relics []string) realSpec {
 		s.lcs = append(s.lcs, lcs[r.Intn(len(lcs))])
 		s.eidols = append(s.eidols, r.Intn(7))
 		s.levels = append(s.levels, pick(r, 1, 20, 50, 80))
-		switch r.Intn(4) {
+		switch r.Intn(5) {
 		case 0:
 			s.relics = append(s.relics, "-")
 		case 1:
 			s.relics = append(s.relics, relics[r.Intn(len(relics))]+"*4")
+		case 2: // odd pieces: one of a set, three of another
+			s.relics = append(s.relics, relics[r.Intn(len(relics))]+"*1/"+relics[r.Intn(len(relics))]+"*3")
 		default:
 			s.relics = append(s.relics, relics[r.Intn(len(relics))]+"/"+relics[r.Intn(len(relics))])
 		}
@@ -510,6 +514,7 @@ func (realComp) Gen(r *rand.Rand, tier string, n int) []*wire.Case {
 			func(s *realSpec) { s.chars = []string{"no_such_character"} },
 			func(s *realSpec) { s.lcs = []string{"no_such_cone"} },
 			func(s *realSpec) { s.relics = []string{"no_such_relic*4"} },
+			func(s *realSpec) { s.relics = []string{"musketeer_of_wild_wheat*1/no_such_relic*1"} },
 			func(s *realSpec) { s.enemies = []string{"no_such_enemy"} },
 		} {
 			s := sample
@@ -524,7 +529,9 @@ func (realComp) Gen(r *rand.Rand, tier string, n int) []*wire.Case {
 		for i := 0; i < n; i++ {
 			s := realSpecGen(r, chars, lcs, relics)
 			if r.Intn(12) == 0 { // an unknown key somewhere
-				switch r.Intn(3) {
+				switch r.Intn(4) {
+				case 3:
+					s.relics[r.Intn(len(s.relics))] = pick(r, "no_such_relic*1", relics[r.Intn(len(relics))]+"*2/no_such_relic*1", "no_such_relic*2")
 				case 0:
 					s.chars[r.Intn(len(s.chars))] = "no_such_character"
 				case 1:
